@@ -203,6 +203,8 @@ def build(tier, seed):
                 'placement/objects/allocation.py:_delete_allocations_for_consumer',
                 'placement/objects/resource_provider.py:ResourceProvider.increment_generation',
                 'placement/objects/consumer.py:Consumer.increment_generation'])
+    chk.script('reshape', script_reshape,
+               ['placement/objects/reshaper.py:reshape'])
     chk.canary('canary.check.capacity', canary_check)
     chk.replayer('C01.', replay_c01)
     chk.fallback('B4.c01.boundary_grid', lambda: replay_c01(None),
@@ -211,6 +213,188 @@ def build(tier, seed):
     chk.assume('A-int', 'A-real', 'A-sql', 'A-sum', 'A-key', 'A-heap',
                'A-order', 'A-txn')
     return chk
+
+
+# --------------------------------------------------------------------------
+# reshape: the allocations are checked against the inventory that is finally
+# installed
+RQ = 'reshape'
+INVC = classes.INV
+
+
+def _cls(I, o):
+    return z3.Select(I.fld(INVC, 'resource_class'), o)
+
+
+def rs_inner_entry(I, frame, seq):
+    d = frame.locals['inv_by_rc']
+    I.ghost['rs.d0'] = (d.dom, d.val)
+
+
+def rs_inner_inv(I, frame, i, seq):
+    """after the first i new records: each of them is THE entry of its class;
+    every other entry is the one the dict held on entry"""
+    d = frame.locals['inv_by_rc']
+    new = frame.locals['new_inv_list']
+    if not isinstance(d, SMap) or not isinstance(new, SList):
+        raise Undecided('reshape: inv_by_rc / new_inv_list are %r / %r'
+                        % (d, new))
+    dom0, val0 = I.ghost['rs.d0']
+    q = z3.Int('q!rs')
+    x = z3.Const('x!rs', d.dom.sort().domain())
+    nq = z3.Select(new.arr, q)
+    pos = I.ghost['rs.pos']
+    repl = z3.And(pos(x) >= 0, pos(x) < i,
+                  _cls(I, z3.Select(new.arr, pos(x))) == x)
+    return [
+        ops.forall([q], z3.Implies(
+            z3.And(q >= 0, q < i),
+            z3.And(z3.Select(d.dom, _cls(I, nq)),
+                   z3.Select(d.val, _cls(I, nq)) == nq)),
+            patterns=[z3.Select(new.arr, q)]),
+        ops.forall([x], z3.Implies(
+            z3.And(z3.Select(d.dom, x), z3.Not(repl)),
+            z3.And(z3.Select(dom0, x),
+                   z3.Select(d.val, x) == z3.Select(val0, x))),
+            patterns=[z3.Select(d.dom, x)]),
+        ops.forall([x], z3.Implies(
+            z3.Select(d.dom, x), _cls(I, z3.Select(d.val, x)) == x),
+            patterns=[z3.Select(d.val, x)]),
+    ]
+
+
+def script_reshape(ex, nprov=1):
+    """one provider with a symbolic list of new records (the per-provider
+    steps of reshape are independent of each other)"""
+    from pyvc.interp import LoopSpec
+    from placement.objects import reshaper as reshaper_obj
+    from placement.objects import inventory as inv_obj
+    from placement.objects import resource_provider as rp_obj
+    reg = registry()
+    reg['loops'][(RQ, 2)] = LoopSpec(
+        invariant=rs_inner_inv, on_entry=rs_inner_entry,
+        name='C01.reshape.interim',
+        keep=('ctx', 'inventories', 'allocations', 'affected_providers', 'rp',
+              'new_inv_list'))
+    calls = []
+
+    def get_all(I, a, k):
+        cur = I.fresh_list('current_inventory', ('obj', INVC))
+        j, j2 = z3.Ints('j!cur j2!cur')
+        I.ex.hyp(ops.forall([j], z3.Implies(
+            z3.And(j >= 0, j < cur.len),
+            z3.Not(z3.Select(I.fld_none(INVC, 'resource_class'),
+                             z3.Select(cur.arr, j)))),
+            patterns=[z3.Select(cur.arr, j)]))
+        I.ex.hyp(ops.forall([j, j2], z3.Implies(
+            z3.And(j >= 0, j < j2, j2 < cur.len),
+            _cls(I, z3.Select(cur.arr, j)) != _cls(I, z3.Select(cur.arr, j2))),
+            patterns=[z3.MultiPattern(z3.Select(cur.arr, j),
+                                      z3.Select(cur.arr, j2))]))
+        return cur
+    reg['calls'][id(inv_obj.get_all_by_resource_provider)] = get_all
+
+    def set_inventory(I, a, k):
+        calls.append(('set_inventory', a[0], a[1]))
+        return None
+    reg['calls'][id(rp_obj.ResourceProvider.set_inventory)] = set_inventory
+
+    def replace_all(I, a, k):
+        calls.append(('replace_all', a[1]))
+        return None
+    reg['calls'][id(alloc_obj.replace_all)] = replace_all
+    I = Interp(ex, reg)
+    ctx = lib.CtxStub()
+    I.ghost['ctx'] = ctx
+    inventories = VDict()
+    rps, news = [], []
+    for n_ in range(nprov):
+        rp = I.fresh('rp%d' % n_, ('obj', classes.RP))
+        ex.assume(z3.Not(z3.Select(I.fld_none(classes.RP, 'uuid'), rp.ref)))
+        new = I.fresh_list('new_inv_list%d' % n_, ('obj', INVC))
+        j, j2 = z3.Ints('j!new j2!new')
+        ex.hyp(ops.forall([j], z3.Implies(
+            z3.And(j >= 0, j < new.len),
+            z3.Not(z3.Select(I.fld_none(INVC, 'resource_class'),
+                             z3.Select(new.arr, j)))),
+            patterns=[z3.Select(new.arr, j)]))
+        # one record per class in the request (JSON object keys)
+        pos = z3.Function(ex.fresh_name('pos_of_class'),
+                          _cls(I, z3.Select(new.arr, j)).sort(), z3.IntSort())
+        ex.hyp(ops.forall([j], z3.Implies(
+            z3.And(j >= 0, j < new.len),
+            pos(_cls(I, z3.Select(new.arr, j))) == j),
+            patterns=[z3.Select(new.arr, j)]))
+        I.ghost['rs.pos'] = pos
+        inventories.items[rp] = new
+        rps.append(rp)
+        news.append(new)
+    allocs = I.fresh_list('allocations', ('obj', classes.ALLOC))
+    ja = z3.Int('j!rsalloc')
+    ex.hyp(ops.forall([ja], z3.Implies(
+        z3.And(ja >= 0, ja < allocs.len),
+        z3.Not(z3.Select(I.fld_none(classes.RP, 'uuid'), z3.Select(
+            I.fld(classes.ALLOC, 'resource_provider'),
+            z3.Select(allocs.arr, ja))))), patterns=[z3.Select(allocs.arr, ja)]))
+    try:
+        I.call(reshaper_obj.reshape.__wrapped__
+               if hasattr(reshaper_obj.reshape, '__wrapped__')
+               else reshaper_obj.reshape, [ctx, inventories, allocs], {})
+    except PyRaise as pr:
+        raise Undecided('reshape raised %s %r' % (pr.exc.cls.__name__,
+                                                   pr.exc.args))
+    kinds = [c[0] for c in calls]
+    ex.oblige('C01.T.reshape.order_interim_check_final',
+              'replace_all' in kinds and
+              kinds[-nprov:] == ['set_inventory'] * nprov and
+              kinds.index('replace_all') == len(kinds) - nprov - 1, 'T',
+              {'calls': kinds})
+    if 'replace_all' not in kinds:
+        return
+    ri = kinds.index('replace_all')
+    for rp, new in zip(rps, news):
+        finals = [c for c in calls[ri + 1:] if c[1].ref.eq(rp.ref)]
+        interim = [c for c in calls[:ri] if c[1].ref.eq(rp.ref)]
+        ok_final = len(finals) == 1 and isinstance(finals[0][2], SList) and \
+            finals[0][2].len.eq(new.len) and finals[0][2].arr.eq(new.arr)
+        ex.oblige('C01.T.reshape.final_inventory_is_the_requested_list',
+                  ok_final, 'T')
+        if not interim:
+            # `if not new_inv_list: continue` -- nothing to check against
+            ex.oblige('C01.T.reshape.interim_skipped_only_for_empty_list',
+                      new.len == 0, 'T')
+            continue
+        L = interim[-1][2]
+        if not isinstance(L, SList):
+            raise Undecided('interim inventory list is %r' % (L,))
+        q, p_ = z3.Ints('q!rspost p!rspost')
+        nq = z3.Select(new.arr, q)
+        lp = z3.Select(L.arr, p_)
+        ex.oblige('C01.T.reshape.checked_against_the_requested_records',
+                  ops.forall([q], z3.Implies(
+                      z3.And(q >= 0, q < new.len),
+                      z3.Exists([p_], z3.And(p_ >= 0, p_ < L.len, lp == nq))),
+                      patterns=[z3.Select(new.arr, q)]), 'T')
+        ex.oblige('C01.T.reshape.no_stale_record_of_a_replaced_class',
+                  ops.forall([p_, q], z3.Implies(
+                      z3.And(p_ >= 0, p_ < L.len, q >= 0, q < new.len,
+                             _cls(I, lp) == _cls(I, nq)), lp == nq),
+                      patterns=[z3.MultiPattern(z3.Select(L.arr, p_),
+                                                z3.Select(new.arr, q))]), 'T')
+
+
+class _Key(object):
+    """hashable wrapper so that a ResourceProvider heap object can key a
+    concrete-shape dict (identity of the reference)"""
+
+    def __init__(self, obj):
+        self.obj = obj
+
+    def __hash__(self):
+        return hash(self.obj.ref.sexpr())
+
+    def __eq__(self, other):
+        return isinstance(other, _Key) and self.obj.ref.eq(other.obj.ref)
 
 
 if __name__ == '__main__':
